@@ -9,6 +9,8 @@ extern "C" {
 size_t shim_ctx_size(int alg);
 /* runs Init (key for HMACs), Update for each cut, Final; ctx is caller memory of shim_ctx_size bytes */
 void shim_hash(int alg, void * ctx, const uint8_t * key, size_t klen, const uint8_t * in, const size_t * cuts, size_t ncuts, uint8_t * digest);
+/* long streams: nchunks updates of chunklen bytes from one buffer, then one update of taillen bytes */
+void shim_hash_long(int alg, void * ctx, const uint8_t * key, size_t klen, const uint8_t * chunk, size_t chunklen, size_t nchunks, size_t taillen, uint8_t * digest);
 void shim_force_openssl_aes(void);
 int shim_aes_uses_intrinsics(void);
 void * shim_aes_expand(const uint8_t * key, size_t len);
